@@ -1770,6 +1770,10 @@ pub struct GraphEngine {
     geo_indexes: RwLock<HashMap<String, geo::GeoIndex>>,
     /// Striped locks for concurrent index updates.
     index_locks: Vec<RwLock<()>>,
+    /// Striped locks tying an edge's creation to the lifetime of its endpoints:
+    /// `create_edge` holds its endpoints' stripes shared, `delete_node` holds its
+    /// node's stripe exclusively.
+    node_locks: Vec<RwLock<()>>,
     /// Whether the label index has been initialized (for lazy auto-creation).
     label_index_initialized: AtomicBool,
     /// Whether the edge type index has been initialized (for lazy auto-creation).
@@ -1823,6 +1827,7 @@ impl GraphEngine {
             fulltext_indexes: RwLock::new(HashMap::new()),
             geo_indexes: RwLock::new(HashMap::new()),
             index_locks: create_index_locks(lock_count),
+            node_locks: create_index_locks(lock_count),
             label_index_initialized: AtomicBool::new(false),
             edge_type_index_initialized: AtomicBool::new(false),
             constraints: RwLock::new(HashMap::new()),
@@ -1893,6 +1898,7 @@ impl GraphEngine {
             fulltext_indexes: RwLock::new(HashMap::new()),
             geo_indexes: RwLock::new(HashMap::new()),
             index_locks: create_index_locks(config.index_lock_count),
+            node_locks: create_index_locks(config.index_lock_count.max(1)),
             label_index_initialized: AtomicBool::new(label_index_exists),
             edge_type_index_initialized: AtomicBool::new(edge_type_index_exists),
             constraints: RwLock::new(constraints),
@@ -1943,6 +1949,7 @@ impl GraphEngine {
             fulltext_indexes: RwLock::new(HashMap::new()),
             geo_indexes: RwLock::new(HashMap::new()),
             index_locks: create_index_locks(config.index_lock_count),
+            node_locks: create_index_locks(config.index_lock_count.max(1)),
             label_index_initialized: AtomicBool::new(label_index_exists),
             edge_type_index_initialized: AtomicBool::new(edge_type_index_exists),
             constraints: RwLock::new(constraints),
@@ -2199,6 +2206,28 @@ impl GraphEngine {
     #[allow(clippy::cast_possible_truncation)]
     const fn lock_index(&self, id: u64) -> usize {
         (id as usize) % self.index_locks.len()
+    }
+
+    #[inline]
+    #[allow(clippy::cast_possible_truncation)]
+    const fn node_lock_index(&self, id: u64) -> usize {
+        (id as usize) % self.node_locks.len()
+    }
+
+    /// Shared locks on the stripes of an edge's two endpoints (in stripe order).
+    fn lock_endpoints_shared(
+        &self,
+        from: u64,
+        to: u64,
+    ) -> (
+        parking_lot::RwLockReadGuard<'_, ()>,
+        Option<parking_lot::RwLockReadGuard<'_, ()>>,
+    ) {
+        let (a, b) = (self.node_lock_index(from), self.node_lock_index(to));
+        let (lo, hi) = (a.min(b), a.max(b));
+        let first = self.node_locks[lo].read();
+        let second = (hi != lo).then(|| self.node_locks[hi].read());
+        (first, second)
     }
 
     // ========== Index CRUD Methods ==========
@@ -3303,6 +3332,12 @@ impl GraphEngine {
 
         // Ensure edge type index exists (lazy init on first edge creation)
         self.ensure_edge_type_index();
+
+        // Keep both endpoints alive until the edge is fully linked: a concurrent
+        // delete_node would otherwise remove a node (and the edges it can see) between
+        // the existence check below and the adjacency updates, leaving an edge whose
+        // endpoint is gone.
+        let _endpoints = self.lock_endpoints_shared(from, to);
 
         // Verify both nodes exist
         if !self.node_exists(from) {
@@ -6495,6 +6530,9 @@ impl GraphEngine {
     /// Returns `NodeNotFound` if the node doesn't exist, or `PartialDeletionError`
     /// if some connected edges fail to delete.
     pub fn delete_node(&self, id: u64) -> Result<()> {
+        // No edge may be attached to this node while it is being removed
+        let _node_guard = self.node_locks[self.node_lock_index(id)].write();
+
         // Get node for index cleanup before deletion
         let node = self.get_node(id)?;
 
